@@ -78,6 +78,17 @@ def check_one(part, value, inst, p, c, entry, case, year):
         k, r = lib_call(lambda: U.format_datetime(U.parse_into_datetime(value, precision=p, precision_constraint=c)))
     elif entry == "direct":      # STIXdatetime carrying the precision, formatted without the parse-time truncation
         k, r = lib_call(lambda: U.format_datetime(U.STIXdatetime(value, precision=p, precision_constraint=c)))
+    elif entry == "components":  # STIXdatetime built from calendar fields + tzinfo (what datetime's own arithmetic / astimezone / replace produce)
+        k, r = lib_call(lambda: U.format_datetime(U.STIXdatetime(value.year, value.month, value.day, value.hour, value.minute, value.second, value.microsecond,
+                                                                 tzinfo=value.tzinfo, precision=p, precision_constraint=c)))
+    elif entry == "astimezone":  # the same instant moved into another zone: a derived STIXdatetime (format metadata back to the defaults)
+        k, r = lib_call(lambda: U.format_datetime(U.STIXdatetime(value, precision=p, precision_constraint=c).astimezone(dt.timezone(dt.timedelta(minutes=-210)))))
+        p, c = "any", "exact"
+    elif entry == "json-encoder":  # a datetime inside plain JSON-able content written by the library's encoder (no property cleaning involved)
+        import json
+        from stix2.serialization import STIXJSONEncoder
+        k, r = lib_call(lambda: json.loads(json.dumps({"x": U.STIXdatetime(value.year, value.month, value.day, value.hour, value.minute, value.second, value.microsecond,
+                                                                           tzinfo=value.tzinfo, precision=p, precision_constraint=c)}, cls=STIXJSONEncoder))["x"])
     else:
         raise ValueError(entry)
     if k != "ok":
@@ -154,7 +165,9 @@ def run_grid(case, part):
             for p in PRECS:
                 for c in CONS:
                     sub = {"kind": "grid1", "year": y, "tz": case["tz"], "point": [mo, d, h, mi, s], "us": us, "precision": p, "constraint": c}
-                    for entry in ("parse+format", "direct"):
+                    for entry in ("parse+format", "direct", "components", "astimezone", "json-encoder"):
+                        if entry == "astimezone" and (tz is None or not (tsfmt.MIN_INSTANT + 86400 * 10 ** 6 <= inst <= tsfmt.MAX_INSTANT - 86400 * 10 ** 6)):
+                            continue        # naive values have no instant to move; the calendar's first/last day cannot be shifted
                         sub["entry"] = entry
                         r = check_one(part, value, inst, p, c, entry, sub, tsfmt.split(inst)[0] if tsfmt.MIN_INSTANT <= inst <= tsfmt.MAX_INSTANT else y)
                         if r is None:
